@@ -850,25 +850,34 @@ func runC01(o *out, thorough bool, r *rng, _ []string) map[string]interface{} {
 		}
 		// allocation volume monitor (sampled: ReadMemStats stops the world)
 		if idx%50 == 0 || len(data) > 4096 {
-			m := new(stun.Message)
-			runtime.ReadMemStats(&ms)
-			before := ms.TotalAlloc
-			_, _ = guarded(func() { _ = stun.Decode(data, m) })
-			runtime.ReadMemStats(&ms)
-			delta := ms.TotalAlloc - before
+			// TotalAlloc counts the whole process (a goroutine of an earlier scenario may allocate meanwhile): an
+			// excess counts only when it repeats in each of three measurements
+			limit := uint64(64*len(data) + 8192)
+			measure := func(f func()) uint64 {
+				least := ^uint64(0)
+				for try := 0; try < 3; try++ {
+					runtime.ReadMemStats(&ms)
+					before := ms.TotalAlloc
+					_, _ = guarded(f)
+					runtime.ReadMemStats(&ms)
+					if d := ms.TotalAlloc - before; d < least {
+						least = d
+					}
+					if least <= limit {
+						break
+					}
+				}
+				return least
+			}
+			delta := measure(func() { _ = stun.Decode(data, new(stun.Message)) })
 			o.count("alloc-measured")
 			// and CloneTo from a source that sits in a large read buffer (what it needs depends on the message)
 			big := make([]byte, len(data), 1<<20)
 			copy(big, data)
-			src, dst := &stun.Message{Raw: big}, new(stun.Message)
-			runtime.ReadMemStats(&ms)
-			b2 := ms.TotalAlloc
-			_, _ = guarded(func() { _ = src.CloneTo(dst) })
-			runtime.ReadMemStats(&ms)
-			if d2 := ms.TotalAlloc - b2; d2 > uint64(64*len(data)+8192) {
+			if d2 := measure(func() { _ = (&stun.Message{Raw: big}).CloneTo(new(stun.Message)) }); d2 > limit {
 				o.fail("alloc-volume", fmt.Sprintf("101 %s - 1,0 CloneTo from a source with a 1 MiB buffer allocated=%d", fHex(data), d2))
 			}
-			if delta > uint64(64*len(data)+8192) {
+			if delta > limit {
 				o.fail("alloc-volume", fmt.Sprintf("101 %s - 1,0 allocated=%d", fHex(data), delta))
 			}
 		}
@@ -914,6 +923,27 @@ func runC01(o *out, thorough bool, r *rng, _ []string) map[string]interface{} {
 			small = append(small, 0xEE)
 		}
 		inner(small, "around-2^16")
+	}
+	// a message behind a stream-framing prefix (RFC 4571's 16-bit length, a 32-bit length, a TURN channel
+	// header): not a STUN message for any entry point - the model decides
+	for i := 0; i < 120; i++ {
+		msg := r.validMessage(r.intn(4), 12)
+		l := len(msg)
+		var framed []byte
+		switch i % 4 {
+		case 0:
+			framed = append([]byte{byte(l >> 8), byte(l)}, msg...)
+		case 1:
+			framed = append([]byte{0, 0, byte(l >> 8), byte(l)}, msg...)
+		case 2:
+			framed = append([]byte{0x40, byte(i), byte(l >> 8), byte(l)}, msg...)
+		default:
+			framed = append([]byte{byte((l + 2) >> 8), byte(l + 2)}, msg...)
+		}
+		for entry := 0; entry <= 2; entry++ {
+			o.run(101, []string{fHex(framed), "-", fNums(entry, 0)}, true)
+		}
+		o.count("kind:framed")
 	}
 	concurrentDecodeStage(o, corpus)
 	return ex
